@@ -53,7 +53,7 @@ TFlip ==
   \* inverse move: restores the cell set recorded at an earlier line
   /\ Chk("C07.inverse restores the identical cells",
          Ev.args.restores > 0 /\ Ev.res.kind = "Ok" =>
-            K(Ev.post) = K(Rec[Ev.args.restores].post))
+            K(Ev.post) = K(Rec[l - Ev.args.restores].post))
   /\ SetObj(Ev.obj, Ev.post)
 
 TRepair ==
